@@ -17,7 +17,7 @@ LEVEL_TEXT = ('All 17 data types (pairs, both layouts, multi-chunk), every prope
               'format-changing scalers of every type and digital lines: each logical history is encoded under every per-segment '
               'byte-order assignment and read eagerly and lazily, with raw_timestamps on and off.')
 LEVEL_NOTE = 'Trusted: big-endian encoding rules in mc/tdmsgen.py (ToC always little-endian; timestamps swap field order; strings keep bytes, offsets swap). big_endian.tdms from the repository test data is decoded by selftest.'
-ASSUMPTIONS = ['multi-byte digital-line words are explored little-endian only']
+ASSUMPTIONS = ['the addressed bit of a multi-byte digital-line word is bit (offset mod 8) of its value in the byte order of the segment']
 
 A, B, C = F.A, F.B, F.C
 
@@ -79,6 +79,14 @@ def histories(tier):
                 out.append(('daqmx-f6' if n_.startswith('daqmx') else 'f6', h_))
     out.append(('daqmx-dl', [G.seg([(A, F.daqmx_enc(3, [(0, 0, 5, 0, 0)], [2], 'dl')), (B, F.daqmx_enc(3, [(0, 0, 9, 0, 0)], [2], 'dl'))], chunks=2),
                              G.seg([], meta=False)]))
+    # digital lines read through 16- and 32-bit words: the addressed bit is bit (offset mod 8) of the word's VALUE, which sits in
+    # another byte of the buffer when the segment is big-endian
+    for code in (2, 4):
+        size = G.DAQMX_TYPES[code][0]
+        for bit in (0, 3, 7, 8 + 2):
+            out.append(('daqmx-dl', [G.seg([(A, F.daqmx_enc(3, [(code, 0, bit, 0, 0)], [size + 1], 'dl')),
+                                            (B, F.daqmx_enc(3, [(0, 0, 8 * size + 1, 0, 0)], [size + 1], 'dl'))], chunks=2),
+                                     G.seg([], meta=False)]))
     return out
 
 
